@@ -141,7 +141,11 @@ void task_group_context_impl::bind_to_impl(d1::task_group_context& ctx, thread_d
         uintptr_t local_count_snapshot = ctx.my_parent->my_context_list->epoch.load(std::memory_order_acquire);
         // Speculative propagation of parent's state. The speculation will be
         // validated by the epoch counters check further on.
-        ctx.my_cancellation_requested.store(ctx.my_parent->my_cancellation_requested.load(std::memory_order_relaxed), std::memory_order_relaxed);
+        // The state is only ever raised here: a plain copy could overwrite a cancellation
+        // request that was made on (or propagated to) this context in the meantime.
+        if (ctx.my_parent->my_cancellation_requested.load(std::memory_order_relaxed)) {
+            ctx.my_cancellation_requested.store(1, std::memory_order_relaxed);
+        }
         register_with(ctx, td); // Issues full fence
 
         // If no state propagation was detected by the following condition, the above
@@ -151,14 +155,18 @@ void task_group_context_impl::bind_to_impl(d1::task_group_context& ctx, thread_d
         if (local_count_snapshot != the_context_state_propagation_epoch.load(std::memory_order_relaxed)) {
             // Another thread may be propagating state change right now. So resort to lock.
             context_state_propagation_mutex_type::scoped_lock lock(the_context_state_propagation_mutex);
-            ctx.my_cancellation_requested.store(ctx.my_parent->my_cancellation_requested.load(std::memory_order_relaxed), std::memory_order_relaxed);
+            if (ctx.my_parent->my_cancellation_requested.load(std::memory_order_relaxed)) {
+                ctx.my_cancellation_requested.store(1, std::memory_order_relaxed);
+            }
         }
     } else {
         register_with(ctx, td); // Issues full fence
         // As we do not have grand-ancestors, concurrent state propagation (if any)
         // may originate only from the parent context, and thus it is safe to directly
         // copy the state from it.
-        ctx.my_cancellation_requested.store(ctx.my_parent->my_cancellation_requested.load(std::memory_order_relaxed), std::memory_order_relaxed);
+        if (ctx.my_parent->my_cancellation_requested.load(std::memory_order_relaxed)) {
+            ctx.my_cancellation_requested.store(1, std::memory_order_relaxed);
+        }
     }
 }
 
